@@ -11,12 +11,15 @@ RULE = (
     "+-1, +-2^k, +-(2^k +- 1) up to 2^53, finite floats over 1e-300..1e300 and shortest-repr stress values, booleans, dates "
     "sampled over 1900-03-01..9999-12-31 incl. month ends and 29 Feb, times over every hh:mm boundary and sampled seconds; "
     "ragged rows (padding); each sheet requested through rowio.excel_rows(path, sheet) and through cutplace.rows with a "
-    "CID Sheet property; string tables written with rowio.XlsxRowWriter and read back, a tenth of them at the limits of the format (32767 / 32768 characters in a cell, 16384 / 16385 cells in a row). Expected text computed from the "
+    "CID Sheet property; string tables (also texts that look like the workbook's own XML: rich-text runs, _xHHHH_ escapes, entities, CDATA) written with rowio.XlsxRowWriter and read back, a tenth of them at the limits of the format (32767 / 32768 characters in a cell, 16384 / 16385 cells in a row). Expected text computed from the "
     "values handed to the producer (numbers via float('%.16G' % v), the precision xlsx stores). A case is (workbook "
     "cells, sheet request), distinct by digest; non-trivial with a non-string cell or a sheet other than the first."
 )
 ASSUMPTIONS = ["whole numbers >= 1e16 (exponent form) and dates before 1900-03-01 are unjudged", "xlsxwriter stores numbers with %.16G"]
 
+# texts that look like what the workbook's XML uses itself (rich-text runs, character escapes, entities, CDATA): to the
+# row writer they are texts like any other (only used where cutplace is the producer)
+MARKUP_LOOK_ALIKES = ["<r>abc</r>", "<r><t>hello</t></r>", "<r> x </r>", "<t>x</t>", "_x0041_", "_x000D_", "a_x005F_b", "&lt;", "&#10;", "]]>", "<![CDATA[x]]>", "<r>", "</r>"]
 STRINGS = ["", "a", "Hello World", "  padded  ", "=1+2", "12", "1.0", "1.50", "TRUE", "äöü €", "日本語", "line\nbreak", "a\tb", "'quoted'", "<&>", "0", "-", "1e5", "2020-01-02"]
 
 
@@ -216,7 +219,7 @@ def check_writer_roundtrip(ctx, index):
     rng = ctx.rng("writer", index)
     table = []
     for _ in range(rng.randint(1, 6)):
-        table.append([rng.choice(STRINGS + ["x", "y z"]) for _ in range(rng.randint(1, 6))])
+        table.append([rng.choice(STRINGS + ["x", "y z"] + MARKUP_LOOK_ALIKES) for _ in range(rng.randint(1, 6))])
     path = os.path.join(ctx.tmp, "rt.xlsx")
     case = {"table": table, "via": "XlsxRowWriter"}
     limit_case = None
@@ -274,7 +277,11 @@ def check_writer_roundtrip(ctx, index):
         if os.path.exists(path):
             os.remove(path)
     want = padded(table)
-    if got != want and limit_case:
+    shape_ok = len(got) == len(want) and all(len(g) == len(w) for g, w in zip(got, want))
+    if got != want and shape_ok and all(g == w or (w.startswith("<r>") and w.endswith("</r>")) for gr, wr in zip(got, want) for g, w in zip(gr, wr)):
+        # the only cells that differ are texts that look like the XML of a rich-text run
+        ctx.violation("C16:writer-roundtrip-differs:text-that-looks-like-a-rich-text-run", case, "a text of the form <r>...</r> written with XlsxRowWriter does not read back identically", expected=want, observed=got)
+    elif got != want and limit_case:
         ctx.violation("C16:writer-truncates-at-format-limit", case, "XlsxRowWriter silently cut off what the workbook format cannot hold",
                       expected="identical table or a data error from the writer", observed={"rows": len(got), "width": len(got[0]) if got else 0, "first-cell-length": len(got[0][0]) if got and got[0] else 0})
     elif got != want:
